@@ -69,15 +69,23 @@ def execute(chooser, ops, profile, board_kwargs=None):
     """Run one history against a fresh board and port; return (violations, observation)."""
     lib = _lib()
     sink = _quiet_logger()
-    board = LegacyBoard(**(board_kwargs or {}))
-    port = FakePort(board, chooser, profile)
+    # an op may carry a fourth element: which of two boards (each on its own port) it goes to
+    kwargs_list = board_kwargs["pair"] if board_kwargs and "pair" in board_kwargs \
+        else [board_kwargs or {}]
+    boards = [LegacyBoard(**kw) for kw in kwargs_list]
+    ports = [FakePort(brd, chooser, profile) for brd in boards]
     viols = []
     obs = []
     states = []
     env_ok = True                       # every environment answer so far was conforming
-    for i, (kind, text, verbose) in enumerate(ops):
+    for i, oper in enumerate(ops):
+        kind, text, verbose = oper[:3]
+        which = oper[3] if len(oper) > 3 else 0
+        board, port, one_kwargs = boards[which], ports[which], kwargs_list[which]
         port.tag = f"op{i}:"
         att_0 = len(port.write_attempts)
+        other = ports[1 - which] if len(ports) > 1 else None
+        other_0 = len(other.write_attempts) if other else 0
         faults_0 = len(port.faults)
         led_0 = len(port.ledger)
         req_0 = port.req_id
@@ -96,10 +104,17 @@ def execute(chooser, ops, profile, board_kwargs=None):
         fsum = ",".join(f"{k}={v}" for (_t, k, v) in faults) or "none"
         where = f"{kind}({text!r}) op{i} faults[{fsum}]"
         ckey = f"{kind}:{text.strip()}:{fsum}"
+        if len(ports) > 1:
+            where = f"port {'AB'[which]} of two: " + where + \
+                f" after {[(o[1].strip(), 'AB'[o[3]]) for o in ops[:i]]}"
+            ckey += f":{'AB'[which]}{i}"
 
         if raised is not None:
             viols.append((f"raise:{ckey}:{type(raised).__name__}",
                           f"{where}: raised {type(raised).__name__}: {raised}"))
+        if len(ports) > 1 and len(other.write_attempts) != other_0:
+            viols.append((f"crosswrite:{ckey}", f"{where}: the *other* port was handed "
+                          f"{other.write_attempts[other_0:]!r}"))
         if len(attempts) != 1 or attempts[0] != text.encode("ascii"):
             viols.append((f"writes:{ckey}", f"{where}: write attempts {attempts!r}, expected "
                           f"exactly one of {text.encode('ascii')!r}"))
@@ -122,7 +137,7 @@ def execute(chooser, ops, profile, board_kwargs=None):
                 viols.append((f"leftover:{ckey}", f"{where}: lines left unread after the "
                               f"exchange: {left}"))
             if kind == "query" and isinstance(ret, str):
-                expect = board_expected(board, req_0, board_kwargs)
+                expect = board_expected(board, req_0, one_kwargs)
                 if expect is None:
                     if ret != "":
                         viols.append((f"data:{ckey}", f"{where}: nothing was sent but query "
@@ -141,8 +156,9 @@ def execute(chooser, ops, profile, board_kwargs=None):
         obs.append((kind, text, type(ret).__name__, ret if isinstance(ret, str) else None,
                     type(raised).__name__ if raised else None, len(attempts),
                     sink.count - logs_0 > 0))
-        states.append((board.snapshot(), tuple((ln.req - port.req_id, ln.text, ln.delay)
-                                               for ln in port.queue)))
+        states.append(tuple((brd.snapshot(), tuple((ln.req - prt.req_id, ln.text, ln.delay)
+                                                   for ln in prt.queue))
+                            for brd, prt in zip(boards, ports)))
     return viols, obs, states
 
 
@@ -246,6 +262,16 @@ def run(ctx):
         session = tuple(steady[(offset + 7 * k) % len(steady)] + (k % 2 == 0,)
                         for k in range(length))
         jobs.append((session, 1, "seq"))
+    # two boards on two ports, used in turn: whatever one board said must never answer for the
+    # other (a reply or a version remembered per request text instead of per port)
+    pair = {"pair": [{"version": "2.8.1", "nickname": "Ann"},
+                     {"version": "2.5.3", "nickname": "Bob", "layer": 7}]}
+    differing = [("query", "V\r"), ("query", "QT\r"), ("query", "QL\r"), ("query", "QP\r"),
+                 ("command", "SP,0,100\r"), ("query", "QB\r")]
+    for first, second in itertools.product(differing, repeat=2):
+        ops = (first + (True, 0), first + (False, 1), second + (True, 0), second + (False, 1),
+               first + (True, 1), first + (False, 0))
+        jobs.append((ops, 1, "seq", pair))
     # seed: rotate job order only (all jobs are always run)
     part = core.fan_out(ctx, _explore_history, jobs)
     _trivial_cases(part)
@@ -261,7 +287,9 @@ def run(ctx):
         "distinct_nontrivial": part.counters.get("faulted_executions", 0),
         "rule": "every history (1 request x verbose on/off, all ordered pairs, triples over a "
                 "sub-alphabet, sessions of 40 and 61 (150) requests with one deviation anywhere, "
-                "nickname queries against boards whose nickname begins with OK) x "
+                "nickname queries against boards whose nickname begins with OK, 36 six-request "
+                "sessions alternating between two boards of different version / nickname / state "
+                "on two ports) x "
                 "every vector of environment answers with at most the stated "
                 "number of deviations; non-trivial = execution with at least one deviation "
                 "(empty reads, silence, error line, raised exception); each (history, vector) "
